@@ -28,6 +28,7 @@ FAIL_MSGS = [
     ("unable to prove", "assert"),
     ("unreachable", "assert"),
     ("call to a function with a failing", "requires"),
+    ("fails to satisfy `callee.requires(args)`", "requires"),
 ]
 
 
